@@ -3,6 +3,7 @@ from __future__ import annotations
 
 import copy
 import json
+import random
 from fractions import Fraction as F
 
 from .. import core, oracle, rulegen, rules, ruleprops
@@ -52,6 +53,17 @@ def gen(ctx, force_mode=None):
     sat = rng.choice(["Cost_Sat", "Cardinality_Sat", "Relative_Cardinality_Sat"])
     specs = ["mes:" + sat, "greedy:" + sat, "phragmen"]
     mode = force_mode or rng.choice(["increase", "completion", "iterated"])
+    if force_mode == "completion":
+        # tie-rich election: the first rule returns several tied outcomes, some completed to exhaustive ones by the next rule
+        from .C08 import tie_rich_election
+        case = tie_rich_election(rng)
+        if case.btype != "app" or rng.random() < 0.5:
+            r = random.Random(rng.getrandbits(48))
+            m = r.randint(3, 5)
+            names = r.sample(core.NAME_POOL, m)
+            costs = [F(r.choice([1, 2, 3, 4])) for _ in names]
+            ballots = [[x for x in names if r.random() < 0.5] for _ in range(r.randint(2, 5))]
+            case = Case(list(zip(names, costs)), F(r.randint(2, int(sum(costs)) + 1)), "app", ballots, seed=r.getrandbits(32))
     if force_mode == "iterated":
         # several rounds with binding budgets: larger elections, budget a fraction of the total cost
         case = core.gen_big_election(rng)
@@ -250,11 +262,18 @@ def run(ctx, n=None, compare=True):
     ctx.rule = RULE
     n = n or ctx.scale(1500, 12000)
     n_iter = ctx.scale(2500, 20000)  # extra stream: iterated Equal Shares over several budget rounds on larger elections
+    n_comp = ctx.scale(5000, 25000)  # extra stream: irresolute completion on tie-rich elections
     lines, info = [], []
-    for k in range(n + n_iter):
+    for k in range(n + n_iter + n_comp):
         if ctx.budget_s is not None and ctx.elapsed() > ctx.budget_s:
             break
-        case, cfg = gen(ctx, "iterated" if k >= n else None)
+        case, cfg = gen(ctx, ("iterated" if k < n + n_iter else "completion") if k >= n else None)
+        if k >= n + n_iter:
+            cfg["res"] = False
+            cfg["init"] = []
+            # Equal Shares first (several tied, usually non-exhaustive outcomes), then Phragmén (completes some of them to
+            # exhaustive allocations and leaves others unfinished), sometimes greedy last
+            cfg["rules"] = ["mes:" + ctx.rng.choice(["Cost_Sat", "Cardinality_Sat"]), "phragmen"] + (["greedy:Cost_Sat"] if ctx.rng.random() < 0.4 else [])
         built, outs, vs, tries = check(case, cfg)
         ctx.evaluations += 1
         ctx.count("mode", cfg["mode"])
